@@ -394,3 +394,99 @@ pub(crate) const SM9_TWIST_POINT_MONT_P2: TwistPoint = TwistPoint {
     },
 };
 
+
+/// Verification hooks (compiled only with `--cfg gm_rs_verif`): RNG observation / scripting and byte-level
+/// wrappers around crate-private tower arithmetic, the pairing and the fixed-base table.
+#[cfg(gm_rs_verif)]
+pub mod verif {
+    use crate::fields::fp::{fp_from_bytes, Fp};
+    use crate::fields::fp12::Fp12;
+    use crate::fields::fp2::Fp2;
+    use crate::fields::fp4::Fp4;
+    use crate::fields::FieldElement;
+    use crate::points::{Point, TwistPoint};
+    use crate::u256::U256;
+    use std::cell::RefCell;
+
+    #[derive(Clone, Debug)]
+    pub struct RngEvent {
+        pub candidate: [u8; 32],
+        pub accepted: bool,
+    }
+    thread_local! {
+        static SCRIPT: RefCell<Vec<[u8; 32]>> = RefCell::new(Vec::new());
+        static LOG: RefCell<Vec<RngEvent>> = RefCell::new(Vec::new());
+    }
+    /// Candidates offered (in order) instead of the CSPRNG output; when exhausted the real bytes are used.
+    pub fn rng_script(cands: Vec<[u8; 32]>) {
+        SCRIPT.with(|s| {
+            let mut c = cands;
+            c.reverse();
+            *s.borrow_mut() = c;
+        });
+    }
+    pub fn rng_take_log() -> Vec<RngEvent> {
+        LOG.with(|l| std::mem::take(&mut *l.borrow_mut()))
+    }
+    pub(crate) fn rng_candidate(buf: &mut [u8; 32]) {
+        SCRIPT.with(|s| {
+            if let Some(c) = s.borrow_mut().pop() {
+                *buf = c;
+            }
+        });
+        LOG.with(|l| l.borrow_mut().push(RngEvent { candidate: *buf, accepted: false }));
+    }
+    pub(crate) fn rng_accept(_v: &U256) {
+        LOG.with(|l| {
+            if let Some(e) = l.borrow_mut().last_mut() {
+                e.accepted = true;
+            }
+        });
+    }
+
+    // byte-level constructors: the same order as `to_bytes_be` (most significant tower component first)
+    pub fn fp2_from_bytes(b: &[u8]) -> Fp2 { Fp2 { c1: fp_from_bytes(&b[0..32]), c0: fp_from_bytes(&b[32..64]) } }
+    pub fn fp4_from_bytes(b: &[u8]) -> Fp4 { Fp4 { c1: fp2_from_bytes(&b[0..64]), c0: fp2_from_bytes(&b[64..128]) } }
+    pub fn fp12_from_bytes(b: &[u8]) -> Fp12 { Fp12 { c2: fp4_from_bytes(&b[0..128]), c1: fp4_from_bytes(&b[128..256]), c0: fp4_from_bytes(&b[256..384]) } }
+    pub fn fp_op(op: &str, a: &[u8], b: &[u8]) -> Vec<u8> {
+        let (x, y): (Fp, Fp) = (fp_from_bytes(a), fp_from_bytes(b));
+        match op {
+            "add" => x.fp_add(&y), "sub" => x.fp_sub(&y), "mul" => x.fp_mul(&y), "sqr" => x.fp_sqr(), "neg" => x.fp_neg(),
+            "dbl" => x.fp_double(), "tpl" => x.fp_triple(), "div2" => x.fp_div2(), "inv" => x.fp_inv(),
+            _ => panic!("unknown fp op"),
+        }.to_bytes_be()
+    }
+    pub fn fp2_op(op: &str, a: &[u8], b: &[u8]) -> Vec<u8> {
+        let (x, y) = (fp2_from_bytes(a), fp2_from_bytes(b));
+        match op {
+            "add" => x.fp_add(&y), "sub" => x.fp_sub(&y), "mul" => x.fp_mul(&y), "sqr" => x.fp_sqr(), "neg" => x.fp_neg(),
+            "dbl" => x.fp_double(), "tpl" => x.fp_triple(), "div2" => x.fp_div2(), "inv" => x.fp_inv(), "div" => x.div(&y),
+            "conj" => x.conjugate(), "a_mul_u" => x.a_mul_u(), "mul_u" => x.fp_mul_u(&y), "sqr_u" => x.sqr_u(), "mul_fp" => x.fp_mul_fp(&y.c0),
+            _ => panic!("unknown fp2 op"),
+        }.to_bytes_be()
+    }
+    pub fn fp4_op(op: &str, a: &[u8], b: &[u8]) -> Vec<u8> {
+        let (x, y) = (fp4_from_bytes(a), fp4_from_bytes(b));
+        match op {
+            "add" => x.fp_add(&y), "sub" => x.fp_sub(&y), "mul" => x.fp_mul(&y), "sqr" => x.fp_sqr(), "neg" => x.fp_neg(),
+            "dbl" => x.fp_double(), "div2" => x.fp_div2(), "inv" => x.fp_inv(),
+            "conj" => x.conjugate(), "a_mul_v" => x.a_mul_v(), "mul_v" => x.fp_mul_v(&y), "sqr_v" => x.sqr_v(), "mul_fp2" => x.fp_mul_fp2(&y.c0), "mul_fp" => x.fp_mul_fp(&y.c0.c0),
+            _ => panic!("unknown fp4 op"),
+        }.to_bytes_be()
+    }
+    pub fn fp12_op(op: &str, a: &[u8], b: &[u8]) -> Vec<u8> {
+        let (x, y) = (fp12_from_bytes(a), fp12_from_bytes(b));
+        match op {
+            "add" => x.fp_add(&y), "sub" => x.fp_sub(&y), "mul" => x.fp_mul(&y), "sqr" => x.fp_sqr(), "neg" => x.fp_neg(),
+            "dbl" => x.fp_double(), "inv" => x.fp_inv(), "frob2" => x.fp12_frobenius2(), "frob6" => x.fp12_frobenius6(),
+            _ => panic!("unknown fp12 op"),
+        }.to_bytes_be()
+    }
+    pub fn fp12_pow(a: &[u8], e: &U256) -> Vec<u8> { fp12_from_bytes(a).pow(e).to_bytes_be() }
+    pub fn fp2_bytes(a: &Fp2) -> Vec<u8> { a.to_bytes_be() }
+    pub fn pairing(q: &TwistPoint, p: &Point) -> Vec<u8> { crate::points::sm9_u256_pairing(q, p).to_bytes_be() }
+    pub fn twist_add_full(p1: &TwistPoint, p2: &TwistPoint) -> TwistPoint { crate::points::twist_point_add_full(p1, p2) }
+    pub fn point_from_bytes(b: &[u8]) -> Point { Point::from_bytes(b) }
+    pub fn table_entry(i: usize, j: usize) -> U256 { crate::sm9_p256_table::SM9_P256_PRECOMPUTED[i][j] }
+    pub fn table_dims() -> (usize, usize) { (crate::sm9_p256_table::SM9_P256_PRECOMPUTED.len(), crate::sm9_p256_table::SM9_P256_PRECOMPUTED[0].len()) }
+}
